@@ -1,5 +1,6 @@
 import LayerModel.Chain.OracleBlock
 import LayerModel.Props.C12
+import LayerModel.Chain.Unbond
 
 /-!
 # C02 — no accepted transaction sequence can make block processing fail
@@ -137,3 +138,34 @@ theorem C02_tally_total (x : Tally.Input) (h : x.periodEnded = true) : ∃ r res
   Tally.C12_tally_total x h
 
 end Layer.OracleBlock
+
+
+namespace Layer.Unbond
+
+/-- **C02 (returning escrowed stake cannot fail in the begin blocker).** Whatever became of the validator an escrow entry came from —
+removed, jailed, tombstoned, slashed to zero tokens with shares left — the validator the stake is re-delegated to accepts the
+delegation, as long as the fallback (the first bonded validator) does. -/
+theorem C02_return_target_accepts (orig : Option Val) (fallback : Val) (h : invalidExRate fallback = false) :
+    invalidExRate (returnTarget orig fallback) = false := by
+  unfold returnTarget
+  cases orig with
+  | none => exact h
+  | some v =>
+    by_cases hv : invalidExRate v = true
+    · simp [hv, h]
+    · simp [hv]
+
+/-- a bonded validator carries voting power, hence tokens: it always accepts -/
+theorem C02_bonded_accepts (v : Val) (h : 0 < v.tokens) : invalidExRate v = false := by
+  unfold invalidExRate
+  have : (v.tokens == 0) = false := by simp; omega
+  simp [this]
+
+/-- **C02 (counterexample before the fix).** A validator whose stake was escrowed by a major dispute and whose remaining 6 000 002
+loya were burned by double-sign evidence keeps its shares: the old target is that validator, and the delegation — made from the
+dispute module's begin blocker when the dispute ends invalid — is refused, which fails the block. -/
+theorem C02_return_target_counterexample :
+    invalidExRate (returnTargetOld (some ⟨0, 6000002000000000000000000⟩) ⟨1003662191, 1003662191000000000000000000⟩) = true ∧
+    invalidExRate (returnTarget (some ⟨0, 6000002000000000000000000⟩) ⟨1003662191, 1003662191000000000000000000⟩) = false := by decide
+
+end Layer.Unbond
